@@ -599,8 +599,26 @@ ACCUMULATING = {
     "analytic_orderby": lambda c: (lambda P, Q, t, u, v: Q.from_(t).select(P.analytics.Sum(t.a).over(t.b).orderby(t.m1q).orderby(t.m2q)))(*_acc(c)),
     "returning": lambda c: (lambda P, Q, t, u, v: Q.into(t).insert(1).returning(t.m1q).returning(t.m2q))(*_acc(c)),
     "distinct_on": lambda c: (lambda P, Q, t, u, v: Q.from_(t).select(t.a).distinct_on(t.m1q).distinct_on(t.m2q))(*_acc(c)),
+    # a star called after an item that it does not make redundant: the first call must survive (the star carries no marker)
+    "select_fn_then_star": lambda c: (lambda P, Q, t, u, v: Q.from_(t).select(P.functions.Upper(t.m1q)).select("*"))(*_acc(c)),
+    "select_aliased_then_star": lambda c: (lambda P, Q, t, u, v: Q.from_(t).select(t.a.as_("m1q")).select("*"))(*_acc(c)),
+    "select_not_then_table_star": lambda c: (lambda P, Q, t, u, v: Q.from_(t).select((~t.m1q).as_("off")).select(t.star))(*_acc(c)),
+    "select_criterion_then_table_star": lambda c: (lambda P, Q, t, u, v: Q.from_(t).select((t.m1q == 0).as_("z"), t.star))(*_acc(c)),
+    "returning_not_then_star": lambda c: (lambda P, Q, t, u, v: Q.into(t).insert(1).returning((~t.m1q).as_("off")).returning(t.star))(*_acc(c)),
+    "returning_json_then_star": lambda c: (lambda P, Q, t, u, v: Q.into(t).insert(1).returning(P.terms.JSON({"k": 1}).as_("m1q"), "*"))(*_acc(c)),
+    # the first condition is a term that is not a Criterion (where() takes any Term): the second call still adds to it
+    "where_case_first": lambda c: (lambda P, Q, t, u, v: Q.from_(t).select(t.a).where(P.Case().when(t.m1q == 1, True).else_(False)).where(t.m2q == 2))(*_acc(c)),
+    "having_case_first": lambda c: (lambda P, Q, t, u, v: Q.from_(t).select(t.a).groupby(t.a).having(P.Case().when(t.m1q == 1, True).else_(False)).having(t.m2q == 2))(*_acc(c)),
+    "where_function_first": lambda c: (lambda P, Q, t, u, v: Q.from_(t).select(t.a).where(P.functions.Coalesce(t.m1q, 0)).where(t.m2q == 2))(*_acc(c)),
+    # an empty criterion after a real one is neutral, as it is for where()
+    "having_then_empty": lambda c: (lambda P, Q, t, u, v: Q.from_(t).select(t.a).groupby(t.a).having(t.m1q == 1).having(P.Criterion.all([])))(*_acc(c)),
+    "having_empty_alone": lambda c: (lambda P, Q, t, u, v: Q.from_(t).select(t.m1q).groupby(t.a).having(P.Criterion.all([])))(*_acc(c)),
+    "agg_filter_then_empty": lambda c: (lambda P, Q, t, u, v: Q.from_(t).select(P.functions.Sum(t.a).filter(t.m1q == 1).filter(P.Criterion.any([]))))(*_acc(c)),
+    "agg_filter_empty_alone": lambda c: (lambda P, Q, t, u, v: Q.from_(t).select(P.functions.Sum(t.m1q).filter(P.Criterion.all([]))))(*_acc(c)),
 }
-CLASS_ONLY = {"returning": ("postgresql",), "distinct_on": ("postgresql",)}
+CLASS_ONLY = {"returning": ("postgresql",), "distinct_on": ("postgresql",), "returning_not_then_star": ("postgresql",), "returning_json_then_star": ("postgresql",)}
+FIRST_ONLY = {"select_fn_then_star", "select_aliased_then_star", "select_not_then_table_star", "select_criterion_then_table_star", "returning_not_then_star",
+              "returning_json_then_star", "having_then_empty", "having_empty_alone", "agg_filter_then_empty", "agg_filter_empty_alone"}
 
 
 def check_accumulate(case):
@@ -621,6 +639,16 @@ def check_accumulate(case):
     toks = lex.lex(sql, cls)
     pos1 = [i for i, tk in enumerate(toks) if tk.kind == "qid" and tk.value == "m1q"]
     pos2 = [i for i, tk in enumerate(toks) if tk.kind == "qid" and tk.value == "m2q"]
+    if name in FIRST_ONLY:
+        if not pos1:
+            return [(mksig("accumulate", name, "call_lost"), "%s: the item of the first call (m1q) is missing in %r" % (name, sql))]
+        if name.endswith("_star") and not any(tk.text == "*" for tk in toks):
+            return [(mksig("accumulate", name, "call_lost"), "%s: the star of the second call is missing in %r" % (name, sql))]
+        if cls == "sqlite":
+            err = sqlite_parse(sql.replace('"t"', '"t1"'))
+            if err:
+                return [(mksig("accumulate", name, "sqlite_parser"), "%r: %s" % (sql, err))]
+        return []
     if not pos1 or not pos2:
         return [(mksig("accumulate", name, "call_lost"), "%s called twice (m1q, then m2q): %s is missing in %r" % (name, "the first call" if not pos1 else "the second call", sql))]
     if min(pos2) < min(pos1):
